@@ -669,7 +669,7 @@ def discharge(site, fx, policy):
                 if r:
                     return "D-pos-slice: " + r
                 # x[..p] with p = e % N and x a fixed array of length >= N
-                bty = F.strip(x).get("ty", "")
+                bty = re.sub(r"^&('\w+ )?", "", F.strip(x).get("ty", ""))       # (a static is referred to by reference)
                 m = re.match(r"^\[.*; (\d+)\]$", bty)
                 bv = value_expr(bound, fam)
                 if m and rng["adt"].endswith("RangeTo") and bv is not None and bv.get("k") == "Binary" and bv["op"] == "Rem":
